@@ -107,8 +107,6 @@ func vxContinuityDB(h *vxHistory) (*DB, ltx.TXID) {
 	vx.FSWriteFile(path+"-wal", h.walImage())
 	db := NewDB(path)
 	db.pageSize = vxPageSize
-	// a session holds its long-running read transaction from init on
-	db.rtx = new(sql.Tx)
 	pos := ltx.TXID(2)
 	first := &vxLTX{level: 0, min: 1, max: 1, commit: 3, ts: 1000, pages: []vxPg{{1, 1}, {2, 2}, {3, 3}}}
 	vx.FSWriteFile(db.LTXPath(0, 1, 1), vxEncodeLTXWAL(first, WALHeaderSize, 0, 100, h.gens[0].salt2))
@@ -252,7 +250,15 @@ func vxCheckEndToEnd(db *DB, last ltx.TXID, source [3]uint64) {
 func VxC04Fresh() {
 	h := vxGenHistory(2)
 	db, pos := vxContinuityDB(h)
-	exec := &syncExecutor{pos: ltx.Pos{TXID: pos}}
+	// the session state is whatever the real start-up leaves behind: DB.init over the
+	// SQL stub (read lock taken, page size read), no replica attached
+	e := vxNewSQLEnv(false)
+	e.pageSize = vxPageSize
+	defer func() { vxSQLHandler = nil }()
+	if err := db.init(context.Background()); err != nil {
+		panic(err)
+	}
+	exec := &syncExecutor{state: db.syncState, pos: ltx.Pos{TXID: pos}}
 	info, err := db.verifyWithExecutor(context.Background(), exec)
 	vxCheckContinuity(h, info, err)
 	if err == nil && vx.Param("ROUND", 1) == 1 {
@@ -265,6 +271,8 @@ func VxC04Fresh() {
 func VxC04SameProcess() {
 	h := vxGenHistory(1)
 	db, pos := vxContinuityDB(h)
+	// a running session holds its long-running read transaction
+	db.rtx = new(sql.Tx)
 	exec := &syncExecutor{pos: ltx.Pos{TXID: pos}}
 	exec.state.lastSyncedWALOffset = WALHeaderSize + int64(h.c)*vxFS
 	// whether the last sync ended exactly at the end of the WAL file
@@ -349,6 +357,7 @@ func VxC04ResetContinuity() {
 	vx.FSWriteFile(db.LTXPath(0, pos+1, pos+1), vx.FSReadFile(db.LTXPath(0, pos, pos)))
 	r := NewReplicaWithClient(db, c)
 	db.Replica = r
+	db.rtx = new(sql.Tx) // a running session holds its read transaction
 	// the session's memory of the WAL before the reset: it had synced up to some
 	// frame boundary (here: everything generation 0 held) and possibly to the very
 	// end of the file
